@@ -1461,6 +1461,88 @@ impl TransportManager {
     }
 }
 
+#[cfg(feature = "verif")]
+impl TransportManager {
+    /// Verification hook: local peer id.
+    pub fn verif_local_peer_id(&self) -> PeerId {
+        self.local_peer_id
+    }
+
+    /// Verification hook: read-only view of a peer's state.
+    pub fn verif_peer_state(&self, peer: &PeerId) -> Option<crate::verif::scripted::PeerStateView> {
+        use crate::verif::scripted::PeerStateView;
+        use peer_state::SecondaryOrDialing;
+
+        let peers = self.peers.read();
+        let context = peers.get(peer)?;
+        Some(match &context.state {
+            PeerState::Connected { record, secondary } => PeerStateView {
+                kind: "connected",
+                primary: Some(record.connection_id.verif_raw()),
+                secondary: match secondary {
+                    Some(SecondaryOrDialing::Secondary(record)) => {
+                        Some(record.connection_id.verif_raw())
+                    }
+                    _ => None,
+                },
+                dialing: match secondary {
+                    Some(SecondaryOrDialing::Dialing(record)) => {
+                        Some(record.connection_id.verif_raw())
+                    }
+                    _ => None,
+                },
+            },
+            PeerState::Opening { connection_id, .. } => PeerStateView {
+                kind: "opening",
+                primary: None,
+                secondary: None,
+                dialing: Some(connection_id.verif_raw()),
+            },
+            PeerState::Dialing { dial_record } => PeerStateView {
+                kind: "dialing",
+                primary: None,
+                secondary: None,
+                dialing: Some(dial_record.connection_id.verif_raw()),
+            },
+            PeerState::Disconnected { dial_record } => PeerStateView {
+                kind: "disconnected",
+                primary: None,
+                secondary: None,
+                dialing: dial_record.as_ref().map(|record| record.connection_id.verif_raw()),
+            },
+        })
+    }
+
+    /// Verification hook: stored addresses of a peer with their scores.
+    pub fn verif_peer_addresses(&self, peer: &PeerId) -> Vec<(Multiaddr, i32)> {
+        self.peers
+            .read()
+            .get(peer)
+            .map(|context| {
+                context
+                    .addresses
+                    .addresses
+                    .values()
+                    .map(|record| (record.address().clone(), record.verif_score()))
+                    .collect()
+            })
+            .unwrap_or_default()
+    }
+
+    /// Verification hook: pending connections.
+    pub fn verif_pending_connections(&self) -> Vec<(usize, PeerId)> {
+        self.pending_connections
+            .iter()
+            .map(|(id, peer)| (id.verif_raw(), *peer))
+            .collect()
+    }
+
+    /// Verification hook: `(incoming, outgoing)` connections counted against the limits.
+    pub fn verif_connection_counts(&self) -> (usize, usize) {
+        self.connection_limits.verif_counts()
+    }
+}
+
 #[cfg(test)]
 mod tests {
     use crate::transport::manager::{address::AddressStore, peer_state::SecondaryOrDialing};
